@@ -174,6 +174,7 @@ static struct shared *S;
 
 const char *mc_phase = "";
 int mc_tier, mc_shard, mc_nshards = 1, mc_replaying, mc_verbose;
+int mc_errno_pre; /* value planted in errno before each library call under test (0, or a stale ERANGE) */
 static struct mc_harness *H;
 static uint64_t skip_until; /* cases numbered <= skip_until are not run */
 static int out_fd = 1;
@@ -640,6 +641,9 @@ int mc_main(int argc, char **argv, struct mc_harness *h)
 	}
 	const char *tier = mc_opt("tier", "quick");
 	mc_tier = !strcmp(tier, "thorough");
+	if (!strcmp(mc_opt("size", ""), "quick"))
+		mc_tier = 0; /* a secondary run that keeps the quick-tier sizes in both tiers */
+	mc_errno_pre = (int)mc_opt_int("errno_pre", 0);
 	mc_verbose = (int)mc_opt_int("verbose", 0);
 	const char *sh = mc_opt("shard", "0/1");
 	sscanf(sh, "%d/%d", &mc_shard, &mc_nshards);
